@@ -106,6 +106,14 @@ impl S3 for FileSystem {
             let _ = self.delete_metadata(&input.bucket, &input.key, None);
         }
 
+        // the checksums recorded for the source describe the copy; those of a previous destination object do not
+        match self.load_internal_info(bucket, key).await? {
+            Some(info) => self.save_internal_info(&input.bucket, &input.key, &info).await?,
+            None => {
+                let _ = self.delete_internal_info(&input.bucket, &input.key);
+            }
+        }
+
         let md5_sum = self.get_md5_sum(bucket, key).await?;
 
         let copy_object_result = CopyObjectResult {
@@ -149,6 +157,7 @@ impl S3 for FileSystem {
         } else {
             try_!(fs::remove_file(&path).await);
             let _ = self.delete_metadata(&input.bucket, &input.key, None);
+            let _ = self.delete_internal_info(&input.bucket, &input.key);
         }
         let output = DeleteObjectOutput::default(); // TODO: handle other fields
         Ok(S3Response::new(output))
@@ -169,6 +178,7 @@ impl S3 for FileSystem {
         for (path, key) in objects {
             try_!(fs::remove_file(path).await);
             let _ = self.delete_metadata(&input.bucket, &key, None);
+            let _ = self.delete_internal_info(&input.bucket, &key);
 
             let deleted_object = DeletedObject {
                 key: Some(key),
@@ -764,6 +774,8 @@ impl S3 for FileSystem {
         } else {
             let _ = self.delete_metadata(&bucket, &key, None);
         }
+        // checksums recorded for a previous object under this key do not describe the assembled one
+        let _ = self.delete_internal_info(&bucket, &key);
 
         let object_path = self.get_object_path(&bucket, &key)?;
         let mut file_writer = self.prepare_file_write(&object_path).await?;
